@@ -27,6 +27,14 @@ type Terminal struct {
 
 // walkDecision walks fn from block `start` under `assign`. stop may end the walk at an instruction.
 func walkDecision(start *ssa.BasicBlock, assign map[string]bool, atomize Atomizer, stop func(ssa.Instruction) (string, bool)) Terminal {
+	return walkDecisionInl(start, assign, atomize, stop, nil, nil, 0)
+}
+
+// walkDecisionInl additionally inlines calls for which inline() returns the callee: the callee is walked under the
+// same assignment; subst receives callee parameter -> caller argument bindings so that atomizers can name conditions
+// on the callee's parameters in terms of the caller's values.
+func walkDecisionInl(start *ssa.BasicBlock, assign map[string]bool, atomize Atomizer, stop func(ssa.Instruction) (string, bool),
+	inline func(ssa.CallInstruction) *ssa.Function, subst map[ssa.Value]ssa.Value, depth int) Terminal {
 	var path []*ssa.BasicBlock
 	var calls []ssa.CallInstruction
 	visits := map[*ssa.BasicBlock]int{}
@@ -45,6 +53,24 @@ func walkDecision(start *ssa.BasicBlock, assign map[string]bool, atomize Atomize
 			}
 			if c, ok := in.(ssa.CallInstruction); ok {
 				calls = append(calls, c)
+				if inline != nil && depth < 4 {
+					if cal := inline(c); cal != nil && len(cal.Blocks) > 0 {
+						if subst != nil {
+							for i, prm := range cal.Params {
+								if i < len(c.Common().Args) {
+									subst[prm] = c.Common().Args[i]
+								}
+							}
+						}
+						t := walkDecisionInl(cal.Blocks[0], assign, atomize, stop, inline, subst, depth+1)
+						calls = append(calls, t.Calls...)
+						if t.Kind != "return" {
+							t.Calls = calls
+							t.Path = append(append([]*ssa.BasicBlock(nil), path...), t.Path...)
+							return t
+						}
+					}
+				}
 			}
 			switch x := in.(type) {
 			case *ssa.Return:
